@@ -135,6 +135,16 @@ Twins == <<
     <<"=", "{u+ff1d}">>, <<":", "{u+ff1a}">>, <<"!", "{u+ff01}", "{u+00a1}">>, <<"+", "{u+ff0b}">>, <<"/", "{u+ff0f}", "{u+2044}">>,
     <<";", "{u+ff1b}", "{u+037e}">>
 >>
+(* L3: line shapes as a PRODUCT of container prefixes and leaves (the hand-picked L1 kept missing single shapes
+   such as an indented fence inside a quote or a bare run of seven hashes); documents of one and two lines *)
+LinePrefixes == <<"", " ", "   ", "    ", "\t", "> ", ">", ">  ", " > ", "> > ", "- ", "-   ", "-\t", "1. ", "10. ", "- > ", "> - ",
+                  "  - ", "   > ">>
+LineLeaves == <<"a", "", "  ", "a  ", "a\\", "```", "````", "``` i", "~~~", "#", "# h", "####### ", "#######", "## a ##", "---",
+                "***", "- - -", "___", "===", "=", "--", "<div>", "</div>", "<!--", "-->", "<pre>", "<x>", "[a]: /u", "[a]", "\"t\"",
+                "a|b", "-|-", "|a|", "||a|", "*a*", "`c", "1.", "-", "+ b", "2) x", "    c", "\tc">>
+L3 == [k \in 1..(Len(LinePrefixes) * Len(LineLeaves)) |->
+         LinePrefixes[((k - 1) \div Len(LineLeaves)) + 1] \o LineLeaves[((k - 1) % Len(LineLeaves)) + 1]]
+L3None == {}
 (* delimiter-dense inline fragments: every sequence of up to four, bare and inside a link / image / emphasis,
    is executed (not sampled) by C02 and C04 - the post-processing of delimiter runs (emphasis, strikethrough,
    odd runs, runs next to a closing bracket) is where token order and nesting are rearranged *)
